@@ -1645,9 +1645,10 @@ fn gen_mem(ch: &mut Ch, feats: u32, imported: bool, exec: bool) -> MemInfo {
     } else {
         None
     };
-    // limits at and beyond the 32-bit boundaries (never in the exec profile,
-    // whose interpreter would have to honour them)
-    if !exec && max.is_some() && ch.chance(1, 6) {
+    // limits at and beyond the 32-bit boundaries (the exec profile's
+    // interpreter caps every memory at a few pages on both sides of the
+    // comparison, so a large declared maximum costs nothing there)
+    if max.is_some() && ch.chance(1, 6) {
         max = Some(if m64 {
             *ch.pick(&[65536u64, 65537, 1 << 32, (1 << 48) - 1, 1 << 48])
         } else {
@@ -2338,6 +2339,8 @@ pub fn generate(data: &[u8], cfg: &GenCfg) -> Generated {
             let mut nm = we::NameMap::new();
             // wat2wasm writes an empty name for every local it has no name for
             let all_empty = prefix == "loc" && ch.chance(1, 8);
+            // ... also when some of its neighbours are named
+            let some_empty = prefix == "loc" && ch.chance(1, 5);
             // entries need not be sorted by index
             let backwards = ch.chance(1, 8);
             for i in 0..n {
@@ -2346,6 +2349,8 @@ pub fn generate(data: &[u8], cfg: &GenCfg) -> Generated {
                     nm.append(i as u32, "");
                 } else if ch.chance(2, 3) {
                     nm.append(i as u32, &gen_name(ch, prefix, i));
+                } else if some_empty {
+                    nm.append(i as u32, "");
                 }
             }
             // a name for an index nothing is defined at (producers leave such
